@@ -71,6 +71,8 @@ class PrintParse(Stream):
             # formerly F2: long / hyphenated / whitespace-only help
             {"doc": 'a = 1\n.help = "' + "x" * 50 + " y-z " + '\\"' * 20 + '"\n', "level": 2, "width": 40},
             {"doc": 'a = 1\n.help = "' + " " * 60 + '"\n', "level": 3, "width": 40},
+            # formerly: an unquoted backslash word after a continuation backslash
+            {"doc": "x = a \\ \\ b\ny = 1\n", "level": 3, "width": 79},
             # formerly F3
             {"doc": "a = 1\n.type = int(allow_none=False)\n", "level": 3, "width": 79},
         ]
